@@ -80,3 +80,10 @@ contract("query:JSONPathQuery.singular_query",
 contract("query:JSONPathQuery.empty",
     requires=["isinstance(self, JSONPathQuery)", "is_tuple(self.segments)"],
     ensures=["result == (len(self.segments) == 0)"], raises=[], props=["C02"])
+
+contract("segments:JSONPathRecursiveDescentSegment._check_depth",
+    requires=["isinstance(self, JSONPathRecursiveDescentSegment)", "wf_env(self.env)", "isinstance(node, JSONPathNode)", "is_json(node.value)", "is_int(depth)"],
+    unfold=["wf_env", "is_json"],
+    raises_iff=[("JSONPathRecursionError", "is_container(node.value) and depth > self.env.max_recursion_depth")],
+    props=["C18", "C13"],
+    note="the depth test of the nondeterministic traversal: containers only, strictly above the configured limit (the same boundary _visit is proved to have)")
